@@ -29,17 +29,14 @@ import common
 import tlc
 
 WORK = os.path.join(common.VERIF, "work")
-TARGET = os.path.join(WORK, "naija_target")
-NAIJA = os.path.join(TARGET, "debug", "naija")
+NAIJA = None
 BUF = 8192     # the implementation's initial buffer; only used to aim the real-size cases
 
 
 def build_naija():
-    os.makedirs(WORK, exist_ok=True)
-    p = subprocess.run(["cargo", "build", "--quiet", "--offline", "--manifest-path", "/repo/Cargo.toml", "--bin", "naija", "--target-dir", TARGET],
-                       cwd="/repo", capture_output=True, text=True)
-    if p.returncode != 0 or not os.path.exists(NAIJA):
-        raise common.ToolError("building naija from /repo failed:\n" + p.stderr[-3000:])
+    """The shipped binary (no hooks) built from the repository's current working tree."""
+    global NAIJA
+    NAIJA = common.build_naija()
     return NAIJA
 
 
@@ -176,7 +173,7 @@ def run(tier):
     build_naija()
     v = common.Verdict("C17", tier, "model_checking")
     rng = random.Random(common.seed())
-    maxlen = 6 if tier == "quick" else 7
+    maxlen = 6 if tier == "quick" else 8
     env = {"MAXLEN": maxlen, "BUFCAP": 4, "KEEPTAIL": 1, "GROW": 1}
     r = tlc.run("io/ReadLine.tla", "io/ReadLine.cfg", workers=6, env=env, timeout=900)
     if r.timed_out or r.rc != 0:
@@ -261,5 +258,5 @@ def run(tier):
     }
     v.assumptions = ["Linux pipe semantics: FIONREAD on the write end reports unread bytes; a read(2) of up to 8 KiB takes a whole smaller chunk",
                      "line terminator is LF (the Unix implementation does not strip CR); the Windows implementation is not exercised",
-                     "the debug `naija` binary is built from /repo's working tree into work/naija_target"]
+                     "the debug `naija` binary (no hooks) is built from the working tree of /repo"]
     return v.finish()
